@@ -307,6 +307,9 @@ def run(ck):
     if fn is not None and regs:
         trailer_cut(ck, P, fn, regs)
     decoders.check_rejections(ck, P, "ATOM/rejection", only_names={"trailer-check", "trailer-isize", "gzip-hcrc"})
+    # the decoder's decisions (trailer, wrap, flags) are those of the reference
+    from .. import condparity as _cp
+    ck.floor("SIB/ref-conditions", _cp.check(ck, P, "SIB/ref-conditions", only={"inflate.c:inflate"}), 45)
     extend_siblings(ck, P)
     wrap_who(ck, P)
     checksum_update_guard(ck, P)
